@@ -17,7 +17,7 @@ import random
 import doc_common as dc
 import export_schema
 from c13 import add_child, sample
-from core import uncps
+from core import uncps, MachineryError
 
 
 def variants(cls, base, schema, types, mins, rnd):
@@ -230,6 +230,29 @@ def run(ctx):
             nested += 1
     ctx.extra["nested_variants"] = nested
     ctx.extra["variants"] = n
+    # the same attempts in a fresh interpreter in which every abstract base class (TrnRq, TrnRs, the sync lists, ...) was
+    # used BEFORE any concrete class: a constraint is enforced whatever was built or inspected earlier
+    import json as _json
+    import subprocess
+    import sys as _sys
+    import os as _os
+    from core import REPO
+    derived = {c for c in classes if schema[c]["bases"]}
+    cand = [e for e in evs if e["route"] in ("etree", "kw") and e["doc"] and e["doc"][0]["tag"] in derived]
+    rest = [e for e in evs if e["route"] in ("etree", "kw") and e["doc"] and e["doc"][0]["tag"] not in derived]
+    pick = rnd.sample(cand, min(len(cand), 250 if quick else 3000)) + rnd.sample(rest, min(len(rest), 100 if quick else 1500))
+    jobs = [{"id": "hb-" + e["id"], "doc": e["doc"], "route": e["route"], "label": e["label"] + " (after the base classes were used)",
+             "expect": e["expect"], "extra": {"unknownkw": e.get("unknownkw", False)}} for e in pick]
+    jf, of = _os.path.join(ctx.work, "bases-first.jobs.json"), _os.path.join(ctx.work, "bases-first.out.json")
+    _json.dump(jobs, open(jf, "w"))
+    pr = subprocess.run([_sys.executable, _os.path.join(_os.path.dirname(__file__), "doc_worker.py"), REPO, _os.path.join(ctx.work, "schema.json"),
+                         jf, of, "bases"], capture_output=True, text=True, timeout=1800,
+                        env=dict(_os.environ, PYTHONHASHSEED="0", PYTHONDONTWRITEBYTECODE="1"))
+    if pr.returncode != 0:
+        raise MachineryError("doc_worker failed: " + pr.stderr[-1500:])
+    hb = _json.load(open(of))
+    evs += hb
+    ctx.extra["attempts_repeated_after_base_classes_were_used"] = len(hb)
     # keyword route only: foreign list member, bare string member, unknown keyword
     import ofxtools.models as M
     from ofxtools.models.base import Aggregate
